@@ -1,4 +1,8 @@
 import Hannibal.Props.C05Current
+import Hannibal.Props.C05QCurrent
 #print axioms Hannibal.C05_holds
 #print axioms Hannibal.C05_current
 #print axioms Hannibal.wellWired05_current
+#print axioms Hannibal.C05q_holds
+#print axioms Hannibal.C05q_current
+#print axioms Hannibal.monC05q_orig
